@@ -298,6 +298,7 @@ def gen_cases(rng, tier):
     out.extend(gen_cli_cases(rng, tier))
     out.extend(gen_combo_cases(rng, tier))
     out.extend(gen_seq_cases(rng, tier))
+    out.extend(gen_first_use_cases(rng, tier))
     return out
 
 
@@ -388,6 +389,22 @@ def prop_oracle(c):
             return "to_seed raised %s" % r[1]
         if bytes(r[1]) != want:
             return "seed is not PBKDF2-HMAC-SHA512(NFKD(mnemonic), 'mnemonic'+NFKD(passphrase), 2048, 64): expected %s" % want.hex()
+        return None
+    if op == "first_use_faulted":
+        e = c["args"][0]
+        r = _try(_first_use_faulted, *c["args"])
+        if r != ("ok", [" ".join(ref_mnemonic(e)), e]) and (r[0] == "err" or [r[1][0], bytes(r[1][1])] != [" ".join(ref_mnemonic(e)), e]):
+            return "after a first use aborted while english.txt was being read (%s after %d lines) the next conversion of a " \
+                   "valid entropy gives %r" % (c["args"][2], c["args"][1], r)
+        return None
+    if op == "first_use_concurrent":
+        ea, eb = c["args"][0], c["args"][1]
+        r = _try(_first_use_concurrent, *c["args"])
+        ok = r[0] == "ok" and all(x is not None and x[0] == "ok" and [x[1][0], bytes(x[1][1])] == [" ".join(ref_mnemonic(e)), e]
+                                  for x, e in zip(r[1], (ea, eb)))
+        if not ok:
+            return "two threads using the module for the first time at once (second starts after %d lines of the first's " \
+                   "read of english.txt): %r" % (c["args"][2], r)
         return None
     return "unknown op"
 
@@ -916,6 +933,151 @@ def gen_combo_cases(rng, tier):
 
 
 # ----------------------------------------------------------------------------------------------
+# first use of the module under a fault / under concurrency: the word list must never be observed half-loaded.
+# The module is re-imported (importlib.reload: module-level state starts afresh), english.txt is served through a proxy
+# that (a) fails after k lines - the aborted call may refuse, but the NEXT call must answer as if nothing had happened -
+# or (b) pauses after k lines while a second thread runs a complete conversion of its own.
+# ----------------------------------------------------------------------------------------------
+class _FaultyFile:
+    def __init__(self, f, after, on_trigger):
+        self._f, self._after, self._on, self._n, self._done = f, after, on_trigger, 0, False
+
+    def _tick(self):
+        self._n += 1
+        if self._n > self._after and not self._done:
+            self._done = True
+            self._on()
+
+    def __enter__(self):
+        return self
+
+    def __exit__(self, *a):
+        self._f.close()
+        return False
+
+    def close(self):
+        self._f.close()
+
+    def __iter__(self):
+        return self
+
+    def __next__(self):
+        self._tick()
+        return next(self._f)
+
+    def readline(self, *a):
+        self._tick()
+        return self._f.readline(*a)
+
+    def read(self, *a):
+        if not self._done:
+            self._done = True
+            self._on()
+        return self._f.read(*a)
+
+    def readlines(self, *a):
+        return [l for l in self]
+
+    def __getattr__(self, k):
+        return getattr(self._f, k)
+
+
+def _fresh_module_with_open(make_proxy):
+    """reload bits.bips.bip39 and serve english.txt through make_proxy(real file) for the FIRST open only"""
+    import builtins
+    import importlib
+    import bits.bips.bip39 as m
+    real_open = builtins.open
+    state = {"first": True}
+
+    def fake_open(path, *a, **kw):
+        f = real_open(path, *a, **kw)
+        if str(path).endswith("english.txt") and state["first"]:
+            state["first"] = False
+            return make_proxy(f)
+        return f
+    builtins.open = fake_open
+    try:
+        m = importlib.reload(m)        # a load at import time (if any) happens under the proxy too
+    except BaseException:  # noqa
+        builtins.open = real_open
+        m = importlib.reload(m)
+        builtins.open = fake_open
+    return m, real_open
+
+
+def _first_use_faulted(entropy, after, exc_name):
+    import builtins
+    exc = {"KeyboardInterrupt": KeyboardInterrupt, "OSError": OSError, "MemoryError": MemoryError}[exc_name]
+
+    def trigger():
+        raise exc("injected while english.txt is being read")
+    m, real_open = _fresh_module_with_open(lambda f: _FaultyFile(f, after, trigger))
+    try:
+        try:
+            m.calculate_mnemonic_phrase(entropy)
+        except BaseException:  # noqa  (the aborted call may refuse)
+            pass
+    finally:
+        builtins.open = real_open
+    phrase = m.calculate_mnemonic_phrase(entropy)
+    return [phrase, m.to_entropy(phrase)]
+
+
+def _first_use_concurrent(entropy_a, entropy_b, after):
+    import builtins
+    import threading
+    e1, e2 = threading.Event(), threading.Event()
+    res = {}
+
+    def trigger():
+        e1.set()
+        e2.wait(5)
+    m, real_open = _fresh_module_with_open(lambda f: _FaultyFile(f, after, trigger))
+
+    def run(tag, e, wait_first):
+        if wait_first:
+            e1.wait(5)
+        try:
+            ph = m.calculate_mnemonic_phrase(e)
+            res[tag] = ["ok", [ph, m.to_entropy(ph)]]
+        except BaseException:  # noqa
+            res[tag] = ["err", None]
+        if wait_first:
+            e2.set()
+    try:
+        ta = threading.Thread(target=run, args=("a", entropy_a, False))
+        tb = threading.Thread(target=run, args=("b", entropy_b, True))
+        ta.start(); tb.start(); ta.join(20); tb.join(20)
+    finally:
+        builtins.open = real_open
+        e2.set()
+    return [res.get("a"), res.get("b")]
+
+
+IMPL["first_use_faulted"] = _first_use_faulted
+IMPL["first_use_concurrent"] = _first_use_concurrent
+
+
+def gen_first_use_cases(rng, tier):
+    T = tier == "thorough"
+    out = []
+    ents = [bytes(16), b"\xff" * 32] + [rng.randbytes(rng.choice(ENT_LENGTHS)) for _ in range(6 if T else 2)]
+    afters = [0, 1, 2, 700, 1024, 2046, 2047, 2048] + [rng.randrange(2049) for _ in range(8 if T else 2)]
+    for e in ents:
+        want = " ".join(ref_mnemonic(e))
+        for k in (afters if T else rng.sample(afters[:8], 4) + afters[8:]):
+            for exc in (("KeyboardInterrupt", "OSError", "MemoryError") if T else (rng.choice(("KeyboardInterrupt", "OSError")),)):
+                out.append(case("first-use-aborted-load", "first_use_faulted", e, k, exc, expect=("ok", [want, e])))
+        e2 = rng.randbytes(rng.choice(ENT_LENGTHS))
+        want2 = " ".join(ref_mnemonic(e2))
+        for k in (afters if T else rng.sample(afters, 3)):
+            out.append(case("first-use-two-threads", "first_use_concurrent", e, e2, k,
+                            expect=("ok", [["ok", [want, e]], ["ok", [want2, e2]]])))
+    return out
+
+
+# ----------------------------------------------------------------------------------------------
 # SEQUENCES of calls in one worker: seq(steps), steps = [[op, arg, ...], ...] -> [["ok", value] | ["err", None], ...]
 # Every answer must be the one the model gives for that call ALONE (model_call returns the list of model calls):
 # nothing remembered from an earlier call (a memo table keyed by a fingerprint of the arguments, a reused buffer, a
@@ -935,7 +1097,7 @@ def _seq(steps):
 
 
 IMPL["seq"] = _seq
-NO_REUSELIST_OPS = {"seq"}
+NO_REUSELIST_OPS = {"seq", "first_use_faulted", "first_use_concurrent"}
 
 
 def _step_case(st):
